@@ -442,9 +442,9 @@ def gen_recipes(ctx):
         s5 = {"op": "zoomify", "out": "z.mcool", "inputs": [["x.cool", ""]], "resolutions": [b, 2 * b, 4 * b], "base_resolutions": [b],
               "chunksize": rng.choice([2, 100]), "opts": {"columns": ["count", "w"]}}
         R.append([s1, s2, s3, s4, s5])
-    for _ in range(18 * mul):
+    for _ in range(12 * mul):
         R.append([G.gen_load(rng, "l.cool")])
-    for _ in range(18 * mul):
+    for _ in range(10 * mul):
         R.append([G.gen_cload(rng, "p.cool")])
     for _ in range(8 * mul):
         widths = G.rand_widths(rng)
